@@ -8,8 +8,8 @@ CFG = dict(
     coq_targets=['props/C03.vo'],
     rule='one case = (kind V/S/D/E, API, scheme, parameters, variant, mutation label, observed result); distinct = distinct such '
          'class strings computed by the harness; all random choices from one PRNG state (VERIF_SEED); RSA keys are fresh per run',
-    trusted=['stdlib oracle ops: hash, ecdsa_verify (crypto/ecdsa.Verify on (r,s)), ed25519_verify, rsa_pkcs1_verify; '
-             'rsa_pss_verify_strict = harness/p/c03/pssref (RFC 8017 EMSA-PSS transcription over math/big, salt length enforced exactly; '
+    trusted=['stdlib oracle ops: hash, ecdsa_verify (crypto/ecdsa.Verify on (r,s)), ed25519_verify, rsa_pkcs1_core (crypto/rsa.VerifyPKCS1v15 on the '
+             'signature re-encoded to modulus length), rsa_pss_core_strict = harness/p/c03/pssref on the re-encoded signature; pssref = (RFC 8017 EMSA-PSS transcription over math/big, salt length enforced exactly; '
              'cross-checked against crypto/rsa.VerifyPSS for every sLen >= 1 case)',
              'oracle hypotheses of the sign-then-verify theorems: raw_verify pk h (raw_sign sk h) = true, r,s < 256^field_size, |ed25519 sig| = 64'],
     assumptions=['ECDSA / EdDSA / RSA mathematics and the hash functions are oracles (Section variables): the theorems hold for every instantiation',
@@ -27,17 +27,35 @@ MANIFEST = dict(
          '(ECDSA), <-> sig = prefix || 64-byte body accepted by Ed25519, <-> sig = prefix || body accepted by RSASSA-PKCS1 / RSASSA-PSS with '
          'exactly the key\'s salt length; (4) Sign output verifies under the oracle law; (5) wrong or missing prefix, other key id/variant, '
          'wrong-length P1363 are rejected; LEGACY = CRUNCHY over msg||00; (6) no input makes a verifier panic (checked slices); (7) key rules. '
+         'Second round (proofs/SigProofs2.v): (8) the RSA fixed-length rule -- crypto/rsa rejects len(sig) <> modulus byte length before the RSA '
+         'operation and tink-go adds no check of its own, so the standard verification is modelled as std_pkcs1 core / std_pss core = length '
+         'check then an arbitrary core: rsa_sig_len n = (BitLen+7)/8 independent of leading zero bytes of the modulus encoding and >= 256 for '
+         'accepted keys; for every key, message, hash and core, every byte string of total length <> |prefix| + modulus length is rejected, the '
+         'zero-stripped and the zero-extended form of an accepted signature are rejected (same integer), and Sign output is prefix || body with '
+         '|body| = modulus length under the law that the oracle verifier accepts the oracle signer; (9) explicit rejections for Ed25519 and RSA, for '
+         'all inputs: no/wrong prefix, every total length other than |prefix|+64 resp. |prefix|+k, what is accepted under one output prefix is '
+         'rejected under every other (other id, other start byte, RAW vs prefixed in both directions; prefixes equal iff same start byte and id), '
+         'appended bytes and cuts at either end of an accepted signature; LEGACY on Sign for all four schemes (= CRUNCHY frame over msg||00); '
+         '(10) modified message / other key in reduction form for ECDSA, Ed25519, PKCS1, PSS with no law assumed: if a signature produced by Sign '
+         'is accepted for another (key, message) then the primitive oracle accepted the genuine raw signature on a DIFFERENT (key, message '
+         'representative) pair, or the hash collided on two distinct strings; and the contrapositive form: if the oracle accepts the genuine raw '
+         'signature for no other pair (unforgeability stated for that signature) and the two strings do not collide, Verify returns an error. '
          'The models are tied to the code by running the extracted model (OCaml, stdlib oracle for hash/ECDSA/Ed25519/RSA) and tink-go on the same '
          'cases: fresh Tink signatures for every curve x hash x encoding x variant, Ed25519, RSA 2048/3072 x SHA256/384/512 x PKCS1/PSS salt '
          'lengths through four API levels, and a mutation / re-encoding stream (non-minimal INTEGER, leading 00/ff, long-form and indefinite '
          'lengths, trailing bytes, negative, zero, r+n, n-s, swapped, wrong width, prefix edits, other key, other variant/hash/salt, modified '
-         'message, truncation, bit flips, random strings) with exact accept/reject prediction; plus a direct oracle (no model) comparing tink-go '
+         'message, truncation, bit flips, random strings; RSA len-1 / len+1 front and back, PKCS1 and PSS genuine signatures with a leading '
+         'zero byte presented zero-stripped) with exact accept/reject prediction -- the extracted std_pkcs1 / std_pss decide the length while the '
+         'oracle answers a length-agnostic core (signature read as an integer); plus a direct oracle (no model) comparing tink-go '
          'with a stdlib-only strict verifier, checking own signatures, stdlib-equality of deterministic signatures and rejection of mutants.',
     note='Trusted: Coq kernel, ExtrOcamlBasic extraction + OCaml glue, the Go harness and the stdlib oracle (Go standard library taken as the '
          'definition of the standard algorithms; RSASSA-PSS with an exactly enforced salt length is a 100-line RFC 8017 transcription because '
          'crypto/rsa reads salt length 0 as auto). The models are hand-written: the tie is the correspondence on the explored cases, not a '
          'translation. Cryptographic unforgeability is not a theorem: "modified signatures are rejected" is proved in the set-theoretic form '
-         '(accepted iff it is the unique encoding of a pair the standard verification accepts) and exercised on mutants. Multi-key keysets are C05. '
+         '(accepted iff it is the unique encoding of a pair the standard verification accepts), "modified message / other key rejected" as a '
+         'reduction to an oracle forgery or hash collision (and as rejection under a per-signature no-forgery hypothesis; a universally '
+         'quantified unforgeability law would be unsatisfiable for fixed-size signatures and is deliberately not assumed), both exercised on mutants. '
+         'The RSA length rule lives in crypto/rsa, not in tink-go: std_pkcs1 / std_pss transcribe that one comparison. Multi-key keysets are C05. '
          'KNOWN FINDING: RSA-SSA-PSS keys with SaltLengthBytes = 0 do not bind the salt length (0 = PSSSaltLengthAuto in crypto/rsa): Sign emits a '
          'maximal salt that a strict sLen=0 verifier rejects, Verify accepts any salt length; listed in known_findings.json.',
     technique='Coq proof (canonical uniqueness of the DER and P1363 codecs by arithmetic on big-endian digits, exact acceptance sets by case analysis, '
